@@ -135,6 +135,7 @@ func runC17(e *Env) Outcome {
 		vo := gen.DrawValOpts(t)
 		vo.Recursive = vo.Recursive || t.Bool("force-recursive")
 		vo.Unsupported = t.Chance("unsupported", 1, 5)
+		vo.NoCycles = !cfgd.Recursion
 		start := len(t.Rec)
 		v := gen.DrawValue(t, vo)
 		sp := &valueSpec{vo: vo, desc: v.Desc}
@@ -142,8 +143,20 @@ func runC17(e *Env) Outcome {
 			sp.draws = append(sp.draws, r.V)
 		}
 		// documents for the unmarshal direction, made by an unrelated fresh marshaler
-		sp.docs[0], _ = ce.MarshalToCBEDocument(sp.build().V, cfg)
-		sp.docs[1], _ = ce.MarshalToCTEDocument(sp.build().V, cfg)
+		// (a failed marshal leaves a partial document, which is kept as an
+		// invalid input - but not megabytes of it: a cyclic value fails only
+		// at the depth limit, and every read is a scheduler step)
+		for f := range sp.docs {
+			var err error
+			if f == 0 {
+				sp.docs[f], err = ce.MarshalToCBEDocument(sp.build().V, cfg)
+			} else {
+				sp.docs[f], err = ce.MarshalToCTEDocument(sp.build().V, cfg)
+			}
+			if err != nil && len(sp.docs[f]) > 2048 {
+				sp.docs[f] = sp.docs[f][:2048]
+			}
+		}
 		sp.obj = sp.build().V
 		specs[i] = sp
 		sc.Types = append(sc.Types, v.Desc)
@@ -315,6 +328,7 @@ func runC17(e *Env) Outcome {
 		limit = 60 * time.Second
 	}
 	s := sched.New(pick, limit)
+	s.MaxSteps = 20000
 	for i := range plans {
 		i := i
 		results[i] = make([]c17Result, len(plans[i]))
@@ -340,6 +354,9 @@ func runC17(e *Env) Outcome {
 	h.Write([]byte(strings.Join(s.Trace, " ")))
 	e.Seen(len(s.Trace) > nthreads, "interleaving", h.Sum64())
 	e.Count("scheduler_steps", len(s.Trace))
+	if s.Capped {
+		e.Count("runs_finished_unscheduled_after_step_cap", 1)
+	}
 	e.Count("probe:thread_blocked_in_library_sync", s.BlockedEvents)
 	e.Count("probe:blocked_thread_released_later", s.Released)
 	for _, st := range s.Trace {
